@@ -292,6 +292,87 @@ func init() {
 		}
 		return s.viol
 	}})
+	// L3: the dBFT 2.0 commit lock with a crashed node - the primary commits in view 0 with the
+	// answers of backups that had already asked for view 1; a validator that was heard at this
+	// height stops for good, so it is never counted as lost; the remaining two ignore each
+	// other's preparations (they are view-changing) and can collect neither M commits nor M
+	// change-view requests.
+	regScript(&Script{Name: "L3_stall_commit_lock_with_crashed_node", Prop: "C09", Class: "stall_commit_lock_with_crashed_node", Run: func() *Violation {
+		sc := scriptScenario(4, -1)
+		sc.Family = "gst"
+		sc.Start = 5 // height 6: validator 2 is the primary of view 0
+		sc.Fault[0] = FAmnesia
+		sc.GST = 0
+		sc.Delta = int64(time.Millisecond)
+		sc.Heights = 3
+		sc.MaxTime = 400 * int64(sc.TPB)
+		sc.MaxEvents = 1000000
+		sc.SyncEvery = int64(sc.TPB)
+		s := newManualSim(sc)
+		s.AddOracle(NewOracleC09(s))
+		n0, n1, n2, n3 := s.nodeOf(0), s.nodeOf(1), s.nodeOf(2), s.nodeOf(3)
+		timeout := func(n *Node) {
+			s.now += int64(time.Millisecond)
+			h, v := n.d.BlockIndex, n.d.ViewNumber
+			n.call(&Step{Op: OpTimeout, TH: h, TV: v}, func() { n.d.OnTimeout(h, v) })
+		}
+		// validator 2 (primary) has proposed at Start; its proposal is still in flight.
+		// The backups time out: recovery requests first (nobody heard anybody yet) ...
+		timeout(n0)
+		timeout(n1)
+		timeout(n3)
+		for _, n := range []*Node{n0, n1, n3} {
+			rr := s.sent(n, dbft.RecoveryRequestType)
+			if rr == nil {
+				return nil
+			}
+			for _, m := range []*Node{n0, n1, n3} {
+				if m != n {
+					s.give(m, rr)
+				}
+			}
+		}
+		// ... then change-view requests for view 1 from 1 and 3
+		timeout(n1)
+		timeout(n3)
+		if s.sent(n1, dbft.ChangeViewType) == nil || s.sent(n3, dbft.ChangeViewType) == nil {
+			return nil
+		}
+		// validator 0 stops for good; it has been heard at this height
+		n0.crash()
+		// the proposal arrives late at 1 and 3, they answer, the primary commits in view 0
+		req := s.sent(n2, dbft.PrepareRequestType)
+		if req == nil {
+			return nil
+		}
+		s.give(n1, req)
+		s.give(n3, req)
+		r1, r3 := s.sent(n1, dbft.PrepareResponseType), s.sent(n3, dbft.PrepareResponseType)
+		if r1 == nil || r3 == nil {
+			return nil
+		}
+		s.give(n2, r1)
+		s.give(n2, r3)
+		if s.sent(n2, dbft.CommitType) == nil {
+			return nil
+		}
+		// from here on the network is synchronous and fault-free; every later message
+		// (responses, commit, change views, recovery traffic) is delivered
+		s.give(n3, r1)
+		s.give(n1, r3)
+		s.manual = false
+		for i := range s.nodes {
+			s.after(sc.SyncEvery+int64(i), &Event{Kind: EvSyncPoll, Node: i})
+		}
+		s.loop()
+		s.st.SimTime = s.now
+		for _, o := range s.oracles {
+			if s.viol == nil {
+				o.AtEnd(s)
+			}
+		}
+		return s.viol
+	}})
 	// V1: a primary that is brought into its view by a recovery message waits the backups'
 	// timeout instead of proposing at once; everybody times out together, a view is wasted.
 	regScript(&Script{Name: "V1_view_wasted_primary_enters_view_by_recovery", Prop: "C09", Class: "view_wasted_primary_entered_view_by_recovery", Run: func() *Violation {
